@@ -295,7 +295,7 @@ func loadProgram(pattern string, ov map[string]string) (*loaded, error) {
 		if len(errs) > 10 {
 			errs = errs[:10]
 		}
-		return nil, fmt.Errorf("package errors:\n  %s", strings.Join(errs, "\n  "))
+		return nil, fmt.Errorf("package errors: %s", strings.Join(errs, " | "))
 	}
 	prog, spkgs := ssautil.AllPackages(pkgs, ssa.InstantiateGenerics)
 	prog.Build()
